@@ -158,16 +158,33 @@ static Value genT1d(vg::Rng &r) {
 }
 
 // C16: regions (free rows after margin), bin size, cell demands (zeros included), float targets, a sequence of operations
-static Value genDensity(vg::Rng &r) {
+static Value genDensity(vg::Rng &r, bool big = false);
+// Large designs: the same kind of instance, laid out so that every bin limit is a multiple of the bin size, and executed with all
+// lengths multiplied by 2^12 (areas by 2^24): single bins stay below 2^31 units of area, coarser views exceed it.  The trace is
+// logged back in the small units (TLC computes with 32-bit integers).
+static Value genDensityBig(vg::Rng &r) {
+  Value v = genDensity(r, true);
+  v.set("kshift", 12);
+  return v;
+}
+static Value genDensity(vg::Rng &r, bool big) {
   int H = (int)r.pick(std::vector<int>{1, 2, 4, 8});
   int nRows = (int)r.in(1, 7);
   int ox = (int)r.in(-30, 30), oy = (int)r.in(-10, 10) * H;
   int W = (int)r.in(3, 60);
+  int bigBin = 0;
+  if (big) {
+    // bin = m rows high, the area is nx x ny bins exactly, no gaps between rows, the first row spans the whole width
+    int m = (int)r.in(1, 3);
+    bigBin = m * H;
+    nRows = m * (int)r.in(2, 4);
+    W = bigBin * (int)r.in(2, 6);
+  }
   Value regions = Value::array();
   int y = oy;
   for (int k = 0; k < nRows; ++k) {
-    if (k > 0 && r.chance(0.2)) y += H * (int)r.in(1, 2);  // gap between rows
-    int x0 = ox + (r.chance(0.3) ? (int)r.in(0, W / 3) : 0), x1 = ox + W - (r.chance(0.3) ? (int)r.in(0, W / 3) : 0);
+    if (!big && k > 0 && r.chance(0.2)) y += H * (int)r.in(1, 2);  // gap between rows
+    int x0 = ox + (r.chance(0.3) && !(big && k == 0) ? (int)r.in(0, W / 3) : 0), x1 = ox + W - (r.chance(0.3) && !(big && k == 0) ? (int)r.in(0, W / 3) : 0);
     if (x1 <= x0) x1 = x0 + 1;
     if (r.chance(0.25) && x1 - x0 >= 4) {
       int c0 = (int)r.in(x0 + 1, x1 - 2), c1 = (int)r.in(c0 + 1, x1 - 1);  // an obstruction cuts the row
@@ -179,11 +196,12 @@ static Value genDensity(vg::Rng &r) {
     y += H;
   }
   int bin = (int)std::max<long long>(1, r.in(1, 5) * H + (r.chance(0.3) ? r.in(0, 3) : 0));
+  if (big) bin = bigBin;
   int n = (int)r.in(1, 24);
   std::vector<int> dem(n);
   Value tx = Value::array(), ty = Value::array();
   for (int i = 0; i < n; ++i) {
-    dem[i] = r.chance(0.15) ? 0 : (int)r.in(1, 3 * H * H + 2);
+    dem[i] = r.chance(0.15) ? 0 : (int)r.in(1, big ? std::min(100, 3 * H * H + 2) : 3 * H * H + 2);
     double p = r.real(0, 1);
     // targets as integers / 4 (exact floats): inside, outside, coincident
     long long x = p < 0.2 ? (long long)(ox + W / 2) * 4 : p < 0.4 ? r.in((ox - 3 * W) * 4, (ox + 4 * W) * 4) : r.in(ox * 4, (ox + W) * 4);
@@ -393,14 +411,21 @@ static void runT1d(int run, const Value &in) {
   vt::emit(ev);
 }
 
+static int g_kshift = 0;   // lengths of the executed instance are 2^g_kshift times those of the logged one
 static void logHier(int run, int step, const std::string &op, bool skipped, const DensityLegalizer &leg, const Value &in,
                     const std::vector<float> &tx, const std::vector<float> &ty) {
+  const int ks = g_kshift;
+  const long long lm = (1LL << ks) - 1, am = (1LL << (2 * ks)) - 1;
+  bool units = true;
+  auto len = [&](long long v) { units = units && (v & lm) == 0; return v / (lm + 1); };
+  auto area = [&](long long v) { units = units && (v & am) == 0; return v / (am + 1); };
+  const float inv = 1.0f / (float)(1 << ks);
   Value ev = vt::ev("Hier");
   ev.set("run", run).set("step", step).set("op", op).set("skipped", skipped).set("regions", in["regions"]).set("demands", in["demands"]);
   ev.set("lx", leg.levelX()).set("ly", leg.levelY()).set("nlx", leg.nbLevelX()).set("nly", leg.nbLevelY());
   Value limX = Value::array(), limY = Value::array();
-  for (int i = 0; i <= leg.nbBinsX(); ++i) limX.push(leg.binLimitX(i));
-  for (int j = 0; j <= leg.nbBinsY(); ++j) limY.push(leg.binLimitY(j));
+  for (int i = 0; i <= leg.nbBinsX(); ++i) limX.push(len(leg.binLimitX(i)));
+  for (int j = 0; j <= leg.nbBinsY(); ++j) limY.push(len(leg.binLimitY(j)));
   ev.set("limX", limX).set("limY", limY);
   Value bins = Value::array();
   for (int i = 0; i < leg.nbBinsX(); ++i)
@@ -408,7 +433,7 @@ static void logHier(int run, int step, const std::string &op, bool skipped, cons
       Value b = Value::object();
       std::vector<int> cs = leg.binCells(i, j);
       for (auto &c : cs) c += 1;
-      b.set("i", i + 1).set("j", j + 1).set("cap", leg.binCapacity(i, j)).set("cells", Value::from(cs));
+      b.set("i", i + 1).set("j", j + 1).set("cap", area(leg.binCapacity(i, j))).set("cells", Value::from(cs));
       bins.push(b);
     }
   ev.set("bins", bins);
@@ -418,11 +443,11 @@ static void logHier(int run, int step, const std::string &op, bool skipped, cons
   for (int c = 0; c < leg.nbCells(); ++c) {
     Value e = Value::object();
     e.set("bx", leg.cellBinX(c) + 1).set("by", leg.cellBinY(c) + 1);
-    e.set("sx0", (long long)std::floor(sx[c])).set("sx1", (long long)std::ceil(sx[c]));
-    e.set("sy0", (long long)std::floor(sy[c])).set("sy1", (long long)std::ceil(sy[c]));
+    e.set("sx0", (long long)std::floor(sx[c] * inv)).set("sx1", (long long)std::ceil(sx[c] * inv));
+    e.set("sy0", (long long)std::floor(sy[c] * inv)).set("sy1", (long long)std::ceil(sy[c] * inv));
     cells.push(e);
   }
-  ev.set("cells", cells).set("totalCap", leg.totalCapacity());
+  ev.set("cells", cells).set("totalCap", area(leg.totalCapacity())).set("units", units).set("kshift", ks);
   vt::emit(ev);
 }
 
@@ -432,8 +457,15 @@ static void runDensity(int run, const Value &in) {
     const Value &q = in["regions"][k];
     regions.emplace_back((int)q[0].asInt(), (int)q[1].asInt(), (int)q[2].asInt(), (int)q[3].asInt());
   }
-  DensityGrid grid((int)in["bin"].asInt(), regions);
+  const int ks = in.has("kshift") ? (int)in["kshift"].asInt() : 0;
+  g_kshift = ks;
+  const int K = 1 << ks;
+  for (Rectangle &q : regions) {
+    q.minX *= K; q.maxX *= K; q.minY *= K; q.maxY *= K;
+  }
+  DensityGrid grid((int)in["bin"].asInt() * K, regions);
   std::vector<int> dem = in["demands"].ints();
+  for (int &dd : dem) dd *= K * K;
   DensityLegalizer::Parameters p;
   const Value &pr = in["params"];
   p.costModel = (LegalizationModel)pr["cost"].asInt();
@@ -449,8 +481,8 @@ static void runDensity(int run, const Value &in) {
   p.coarseningLimit = (double)pr["coarsen"].asInt();
   DensityLegalizer leg(grid, dem, p);
   std::vector<float> tx, ty;
-  for (long long v : in["tx4"].longs()) tx.push_back((float)v * 0.25f);
-  for (long long v : in["ty4"].longs()) ty.push_back((float)v * 0.25f);
+  for (long long v : in["tx4"].longs()) tx.push_back((float)v * 0.25f * (float)(1 << ks));
+  for (long long v : in["ty4"].longs()) ty.push_back((float)v * 0.25f * (float)(1 << ks));
   leg.updateCellTargetX(tx);
   leg.updateCellTargetY(ty);
   logHier(run, 0, "init", false, leg, in, tx, ty);
@@ -749,7 +781,7 @@ int main(int argc, char **argv) {
   long long seed = argi("seed", 1), first = argi("first", 0), runs = argi("runs", 10);
   for (long long k = first; k < first + runs; ++k) {
     vg::Rng r((uint64_t)seed * 1000003ULL + (uint64_t)k);
-    Value in = scen == "rowhist" ? genRowHist(r) : scen == "transport" ? genTransport(r, argi("big", 0)) : scen == "density" ? genDensity(r) : scen == "netw" ? genNetw(r) : genT1d(r);
+    Value in = scen == "rowhist" ? genRowHist(r) : scen == "transport" ? genTransport(r, argi("big", 0)) : scen == "density" ? (argi("big", 0) ? genDensityBig(r) : genDensity(r)) : scen == "netw" ? genNetw(r) : genT1d(r);
     Value begin = vt::ev("AlgoBegin");
     begin.set("run", (long long)k).set("scen", scen).set("inst", in);
     vt::emit(begin);
